@@ -775,10 +775,12 @@ def _set_of_existing_abbreviations(F, B, operand):
 NAME_NORMALISERS = ("trim", "trim_start", "trim_end", "trim_matches", "trim_start_matches", "trim_end_matches", "trim_left", "trim_right",
                     "to_lowercase", "to_uppercase", "to_ascii_lowercase", "to_ascii_uppercase", "make_ascii_lowercase", "make_ascii_uppercase",
                     "replace", "replacen", "strip_prefix", "strip_suffix", "split_once", "rsplit_once", "split", "rsplit", "split_terminator",
-                    "split_whitespace", "get", "get_unchecked", "index", "chars", "bytes", "as_bytes", "nfc", "nfkc", "unwrap_or", "unwrap_or_default",
-                    "unwrap", "expect", "next", "last", "nth", "truncate")
-LOOSE_COMPARISONS = ("eq_ignore_ascii_case", "starts_with", "ends_with", "contains", "cmp::PartialOrd::lt", "cmp::PartialOrd::le", "cmp::PartialOrd::gt",
-                     "cmp::PartialOrd::ge")
+                    "split_whitespace", "get", "get_unchecked", "index", "nfc", "nfkc", "truncate")
+# (what a value passes unchanged on its way to a comparison)
+NAME_PLUMBING = ("unwrap_or", "unwrap_or_default", "unwrap", "expect", "as_bytes", "next", "last", "nth")
+# (partial comparisons of texts; `contains` of a slice or a set is membership by equality and not among them)
+LOOSE_COMPARISONS = ("eq_ignore_ascii_case", "str>::starts_with", "str>::ends_with", "str>::contains", "String::starts_with", "cmp::PartialOrd::lt",
+                     "cmp::PartialOrd::le", "cmp::PartialOrd::gt", "cmp::PartialOrd::ge")
 
 
 def rule_namespace_names_compared_verbatim(ck, F, rule="R3"):
@@ -789,7 +791,7 @@ def rule_namespace_names_compared_verbatim(ck, F, rule="R3"):
     under the first one's name. Decided on the MIR of every non-test function and closure of the library, helpers taken in: where an
     operand of a comparison comes from the `namespace` member of a `Namespace`, neither operand went through a normalising text
     step, and the comparison is equality."""
-    wide = M.IDENTITY_CALLS + tuple("::" + n_ for n_ in NAME_NORMALISERS) + ("Option::<T>::map", "Option::<T>::and_then")
+    wide = M.IDENTITY_CALLS + tuple("::" + n_ for n_ in NAME_NORMALISERS + NAME_PLUMBING) + ("Option::<T>::map", "Option::<T>::and_then")
     n_cmp = 0
     for b in scans.bodies(F.lib):
         path = b["path"]
